@@ -32,6 +32,10 @@ CLAIMED = {
          "exploration",
          "For MarlinKZG10, SonicKZG10 and IPA: an honest transcript re-delivered with any bound fault must not be accepted (exempt only presentations that are bit-identical in distribution to an honest commitment under the presented label: zero polynomial, constant presented without bound, Sonic zero shift); out-of-bound commit/open requests must end in Err/abort.",
          "3.4", "exemptions are stated in DESIGN.md section 3.4; MarlinKZG10's acceptance of bounds in (supported, max] is a recorded known finding"),
+ "C18": ("seeded scheduler search: the whole dependency graph runs on a deterministic rayon replacement whose job order, reduction splits, join order and thread-count knob are drawn from the seed; each scenario is executed under the identity schedule, 5 seeded schedules x thread knobs {1,2,3,8,16} and one schedule twice, and its output digests are compared; a build without `parallel` and a real-rayon build at 1/2/3/8/16/16 threads are compared on the same scenarios",
+         "exploration",
+         "SHA-256 digests of keys, commitments, states, proofs, decisions and verifier sponge states (Hyrax commitments/proofs excluded as the property says) must be identical across all schedules, thread knobs and the three build variants; a same-schedule divergence flags entropy that bypasses every seam.",
+         "3.12", "the shim explores only executions real rayon permits; variant C (real rayon) is corroboration only, its nondeterminism is not controlled"),
  "C05": ("dual-verifier simulation: batch verifier replica vs per-point check replica on identical delivered messages, with false-claim subsets, challenge-aware cancelling errors across point groups, proof-list permutation/truncation/extension/duplication, and the verifier-RNG seam re-seeded 4 times",
          "exploration",
          "For every delivered (possibly faulted) batch the decision of batch_check must equal the AND of the individual checks under every verifier RNG stream; challenge-aware cross-group cancellation targets constant or reused batch randomizers.",
